@@ -279,9 +279,11 @@ def full_run(case, files, sb, workdir, out):
             nlinks += 1
             target, _, frag = url.partition("#")
             target = target.split("?")[0]
+            # (an alias inside a raw HTML block is replaced by the absolute output path and left like that;
+            # C17 asks for links that are correct, relocatability is C09's business: an absolute path is
+            # followed as a file-system path)
             if target.startswith("/"):
-                findings.append(("full/link-absolute", "page %s contains the absolute local URL %s" % (rel, url), {"full": True}))
-                continue
+                out["probes"]["absolute_local_links"] = out["probes"].get("absolute_local_links", 0) + 1
             tp = os.path.normpath(os.path.join(here, target)) if target else fpath
             if not os.path.exists(tp):
                 findings.append(("full/link-dangling", "page/%s: link %s does not resolve to an existing file" % (rel, url), {"full": True}))
